@@ -58,8 +58,8 @@ type Unit struct {
 	siteOrd  map[ssa.Instruction]string
 	truncated bool
 	deadline  time.Time
-	returns   int             // return instructions reached with the postconditions checked
-	invCover  map[string]bool // loops whose assumed invariant already has a cover query
+	returns   int            // return instructions reached with the postconditions checked
+	invCover  map[string]int // cover queries issued per loop / return site (a few paths each, judged as a group)
 }
 
 type loopInfo struct {
@@ -431,11 +431,11 @@ func (st *State) checkEnsures(fr *Frame, results []SVal) {
 	}
 	u.returns++
 	if u.invCover == nil {
-		u.invCover = map[string]bool{}
+		u.invCover = map[string]int{}
 	}
-	if !u.invCover["ret:"+site] {
-		// vacuity probe (once per return site): some return of the unit must be reachable (evaluated as a group)
-		u.invCover["ret:"+site] = true
+	if u.invCover["ret:"+site] < 3 {
+		// vacuity probe (a few paths per return site): some return of the unit must be reachable (evaluated as a group)
+		u.invCover["ret:"+site]++
 		st.e.addObligation(st, u, "cover", "return-reachable", site, TFalse, u.c.Props, "return", true)
 	}
 	env := st.unitEnv(fr, results)
@@ -885,10 +885,10 @@ func (st *State) assumeInvariant(fr *Frame, li *loopInfo) {
 	if len(li.spec.Invs) > 0 {
 		key := fmt.Sprintf("%s#%d", fr.fn.Name(), li.ordinal)
 		if st.u.invCover == nil {
-			st.u.invCover = map[string]bool{}
+			st.u.invCover = map[string]int{}
 		}
-		if !st.u.invCover[key] {
-			st.u.invCover[key] = true
+		if st.u.invCover[key] < 6 {
+			st.u.invCover[key]++
 			site := fmt.Sprintf("loop.%d", li.ordinal)
 			if !fr.isUnit {
 				site = fr.fn.Name() + "/" + site
